@@ -486,3 +486,83 @@ def drive_wrapper(data, sizes, personality='iter', order=None, allowed=None,
     return {'per': per, 'format': w_format(w), 'formats': w_formats(w),
             'samples': samples, 'error': error, 'region_bad': bad,
             'order': names, 'got': got, 'src': src, 'wrapper': w}
+
+
+# ------------------------------------------------------------------ knobs
+
+_KNOBS = {}
+
+
+def size_knobs(lo=64 * 1024, hi=32 * 1024 * 1024):
+    """Size-like integer constants of the module under test (module level
+    and class level), e.g. VMDKInspector.DESC_MAX_SIZE.  Stream lengths and
+    chunk sizes are generated around them ("randomise the tuning knobs"), so
+    that a path which only starts beyond some built-in limit is entered
+    whatever the limit is called or set to.  Sorted; always contains 1 MiB
+    and 8 MiB."""
+    key = (lo, hi)
+    if key in _KNOBS:
+        return _KNOBS[key]
+    m = fi()
+    vals = {1 << 20, 8 << 20}
+    objs = [m] + [v for v in vars(m).values() if isinstance(v, type) and
+                  getattr(v, '__module__', None) == m.__name__]
+    for o in objs:
+        for k, v in vars(o).items():
+            if isinstance(v, int) and not isinstance(v, bool) and \
+                    lo <= v <= hi:
+                vals.add(v)
+    _KNOBS[key] = sorted(vals)
+    return _KNOBS[key]
+
+
+# ------------------------------------------------------ argument shapes
+
+import enum as _enum
+
+DiskFormat = _enum.Enum('DiskFormat', {n.upper(): n for n in (
+    'raw', 'qcow2', 'vhd', 'vhdx', 'vmdk', 'vdi', 'qed', 'iso', 'gpt',
+    'luks')}, type=str)
+
+
+class LabelStr(str):
+    """A str subclass whose str()/repr() differ from its value (what an
+    i18n or logging helper hands around)."""
+
+    def __str__(self):
+        return 'Label<%s>' % str.__str__(self)
+
+    __repr__ = __str__
+
+
+NAME_STYLES = (None, 'enum', 'strsub')
+COLL_STYLES = (None, 'tuple', 'set', 'frozenset', 'dictkeys')
+
+
+def name_arg(name, style):
+    """A format name as callers hand it in: a plain str, a member of a
+    (str, Enum) class, or another str subclass - all equal to the name."""
+    if name is None or not style:
+        return name
+    if style == 'enum':
+        try:
+            return DiskFormat(name)
+        except ValueError:
+            return LabelStr(name)
+    return LabelStr(name)
+
+
+def coll_arg(names, style, name_style=None):
+    if names is None:
+        return None
+    items = [name_arg(n, name_style) for n in names]
+    if style == 'tuple':
+        return tuple(items)
+    if style == 'set':
+        return set(items)
+    if style == 'frozenset':
+        return frozenset(items)
+    if style == 'dictkeys':
+        return dict.fromkeys(items).keys()
+    return items
+
